@@ -689,6 +689,15 @@ def rule_property_forward(ctx, rule_id="C15.property-forward"):
                   "keeps digits the property's precision rule removes, and is serialised with them", file=cl.module.relpath,
                   line=cl.node.lineno, function=cl.qualname, expected="parse_into_datetime(...) on every normal path",
                   found="bypass", path=g.describe_path(path))
+    # ... and what reaches the parser is the value AS GIVEN: the parameter is never re-bound on the way (a rewrite of the text
+    # -- ':60' to ':59' for leap seconds, say -- makes the instant written differ from the instant given, and can write a later
+    # input as an earlier instant)
+    rebinds = [a_ for a_ in body_walk(cl.node) if isinstance(a_, (ast.Assign, ast.AugAssign)) and any(
+        isinstance(t_, ast.Name) and t_.id == cl.params[1] for t_ in (a_.targets if isinstance(a_, ast.Assign) else [a_.target]))]
+    run.check(not rebinds, R, key(cl.module.relpath, cl.qualname, "value-as-given"),
+              "TimestampProperty.clean rewrites the value before it is parsed: the instant that is stored and written is not the one "
+              "that was given", file=cl.module.relpath, line=rebinds[0].lineno if rebinds else cl.node.lineno, function=cl.qualname,
+              expected="parse_into_datetime(<the parameter, untouched>, ...)", found=[short(a_) for a_ in rebinds])
     run.check(ok, R, key(cl.module.relpath, cl.qualname, "forwards-precision"), "the property's precision settings do not reach the parser",
               file=cl.module.relpath, line=cl.node.lineno, function=cl.qualname,
               expected="parse_into_datetime(value, self.precision, self.precision_constraint)", found=[short(c) for c in calls])
